@@ -448,7 +448,9 @@ func (c *Ctx) bin(op string, a, b *Term, f func(x, y uint64, w int) uint64) *Ter
 	if a.Const && b.Const && f != nil && w <= 64 {
 		return BVConst(f(a.C, b.C, w), w)
 	}
-	return c.mk("("+op+" "+a.S+" "+b.S+")", a.Sort)
+	t := c.mk("("+op+" "+a.S+" "+b.S+")", a.Sort)
+	t.Op, t.Args = op, []*Term{a, b}
+	return t
 }
 
 func (c *Ctx) Add(a, b *Term) *Term {
@@ -466,6 +468,15 @@ func (c *Ctx) Sub(a, b *Term) *Term {
 	}
 	if a.S == b.S {
 		return BVConst(0, a.Sort.W)
+	}
+	if a.Op == "bvadd" && len(a.Args) == 2 {
+		// (x + k) - x = k: the length of s[x : x+k]
+		if a.Args[0].S == b.S {
+			return a.Args[1]
+		}
+		if a.Args[1].S == b.S {
+			return a.Args[0]
+		}
 	}
 	return c.bin("bvsub", a, b, func(x, y uint64, w int) uint64 { return x - y })
 }
